@@ -550,9 +550,20 @@ class StubMultiprocessing:
     """Stands in for the ``multiprocessing`` module inside main_loop."""
     Pool = StubPool
 
+    class _PoolModule:
+        """``multiprocessing.pool``: every executor a refactor may pick (process pool, thread pool) is
+        the same in-process stub; a real ThreadPool would run the symbolic task on another thread and
+        swallow the engine's path-steering exceptions (the caller would wait for ever)."""
+        Pool = StubPool
+        ThreadPool = StubPool
+
+        def __getattr__(self, name):
+            import multiprocessing.pool as mpp
+            return getattr(mpp, name)
+
     def __init__(self):
-        import multiprocessing.pool as mpp
-        self.pool = mpp
+        self.pool = StubMultiprocessing._PoolModule()
+        self.dummy = self.pool
 
     def cpu_count(self):
         return 16
